@@ -422,6 +422,14 @@ C07StepChecks(k, e, s, t, g) ==
               IF S0 = Zero THEN m = e.args.amt ELSE (m -- One) ** TV0 \preceq e.args.amt ** S0, Str(m)) }
       ELSE {})
      \cup
+     \* "depositing then immediately withdrawing never returns more than was deposited": the shares just minted, redeemed at the
+     \* rate the vault shows right after the deposit (what an immediate MsgUnbond pays, see the next check), are worth no more
+     \* than the deposit - so nothing may raise the vault value inside the bond itself AFTER the shares were priced
+     (IF TxOK(k, e, "stablestake.MsgBond") /\ S1 \succ Zero THEN
+        { Chk("C07", "C07.step.bond_then_immediate_unbond_returns_no_more_than_deposited", TRUE,
+              Value(TV1, S1, m) \preceq e.args.amt ++ Worth, Str(Value(TV1, S1, m))) }
+      ELSE {})
+     \cup
      (IF TxOK(k, e, "stablestake.MsgUnbond") THEN
         { Chk("C07", "C07.step.unbond_pays_no_more_than_fair_value", TRUE,
               (pay -- One) ** S0 \preceq e.args.shares ** TV0, Str(pay)) }
